@@ -98,7 +98,7 @@ def run_case(case, scratch_root):
             argv.append("--stop-early")
         spec = {"root": root, "cwd": inv.get("cwd", ""), "argv": argv, "script": inv.get("script", {}),
                 "strategy": inv.get("strategy", "blocked-fifo"), "seed": inv.get("seed", 0),
-                "inject": inv.get("inject"), "count_lines": inv.get("count_lines", False)}
+                "inject": inv.get("inject"), "count_lines": inv.get("count_lines", False), "unrelated": inv.get("unrelated")}
         kind, res = common.run_forked(schedsim.run_invocation, spec, inv.get("timeout", 90))
         executed, cached = plan_model(tb, inv["target"], rows_before, inv.get("again", False))
         failed, skipped = outcome_model(tb, executed, inv.get("script", {}))
@@ -546,6 +546,9 @@ def mk_history(rng, tasks, target, focus, strategies):
         tgt = target if last else rng.choice(ids)
         inv = {"target": tgt, "jobs": rng.choice([None, 1, 2, 3, 4, 5]), "again": (rng.random() < 0.2 and k > 0),
                "stop_early": False, "script": {}, "strategy": rng.choice(strategies), "seed": rng.randrange(1 << 30)}
+        if focus == "live" and rng.random() < 0.4:
+            # children of the cond process that are not tasks (exit statuses differ from the tasks')
+            inv["unrelated"] = [dict(rng.choice([{"exit": 0}, {"exit": 5}, {"exit": 1}, {"signal": 9}])) for _ in range(rng.randint(1, 3))]
         if focus == "wide":
             inv["jobs"] = rng.choice([1, 2, 2, 3, 3, 4, 6])
             if rng.random() < 0.35:
